@@ -79,8 +79,13 @@ func Walk(ctx context.Context, fileSystem fs.FS, prefix, delimiter, marker strin
 		if path == "." {
 			return nil
 		}
-		if contains(d.Name(), skipdirs) {
-			return fs.SkipDir
+		// skipdirs are bookkeeping directories at the top of the bucket;
+		// deeper entries of the same name are ordinary keys
+		if path == d.Name() && contains(d.Name(), skipdirs) {
+			if d.IsDir() {
+				return fs.SkipDir
+			}
+			return nil
 		}
 
 		// After this point, return skipflag instead of nil
